@@ -131,7 +131,13 @@ Relative(sc, units, du, u, k) ==
       ELSE LET d == du[1].runs[j] IN
            IF IsNoAst(u.opt)
            THEN CmpFrom("C07", u, r, d, 1, <<"ok", "pn">>) \o NoAstJudge(sc, u, r)
-           ELSE CmpFrom("C02", u, r, d, 1, IF r.ok /\ d.ok THEN <<"ok", "pn", "tk">> ELSE <<"ok", "pn">>))
+           ELSE CmpFrom("C02", u, r, d, 1, IF r.ok /\ d.ok THEN <<"ok", "pn", "tk">> ELSE <<"ok", "pn">>) \o
+                \* C03 is stated for every generated parser: tokens under an option set that differ from the
+                \* default parser's, while the default parser's are the derivation's, are not the derivation's
+                (IF r.ok /\ d.ok /\ r.tk # d.tk /\ d.tk = Parse(BodyMap(Core(sc.grammar)), d.w, IF pl.entry = "" THEN sc.grammar.rules[1].name ELSE pl.entry).toks
+                 THEN <<Mis("C03", "tokens-under-option", u, r, d.tk, r.tk)>> ELSE <<>>) \o
+                (IF r.ok /\ d.ok /\ sc.collect.exec /\ Field(r, "ex") # Field(d, "ex")
+                 THEN <<Mis("C04", "exec-under-option", u, r, Field(d, "ex"), Field(r, "ex"))>> ELSE <<>>))
   ELSE IF r.h > 0 THEN   \* a step of a history on a long-lived instance against the fresh instance
      LET S == {j \in 1..Len(u.runs) : u.runs[j].i = r.i /\ u.runs[j].c = r.c /\ u.runs[j].h = 0} IN
      (IF S = {} THEN <<>> ELSE CmpOwned(u, r, u.runs[CHOOSE j \in S : TRUE], 1, CmpFields)) \o
